@@ -1,5 +1,6 @@
-import RigModel.Lemmas.C08Assign
-namespace Rig.C08
-#check @call.check
-#print call.check
-end Rig.C08
+import RigModel.Lemmas.C08Add
+#check @Nat.testBit_shiftRight
+#check @Nat.testBit_mod_two_pow
+#check @Nat.testBit_lt_two_pow
+#check @Nat.pow_le_pow_right
+#check @Nat.testBit_and
